@@ -188,6 +188,10 @@ class GenericCallAdapter(Adapter):
                 )
 
         old_node_kwargs = {kw.arg: kw.value for kw in old_node.keywords}
+        old_node_kwargs_pos = {
+            kw.arg: len(old_node.args) + pos
+            for pos, kw in enumerate(old_node.keywords)
+        }
 
         to_insert = []
         insert_pos = 0
@@ -200,6 +204,7 @@ class GenericCallAdapter(Adapter):
                 result_kwargs[key] = new_value_element.value
             else:
                 node = old_node_kwargs[key]
+                node_pos = old_node_kwargs_pos[key]
 
                 # check values with same keys
                 old_value_element = self.argument(old_value, key)
@@ -221,7 +226,8 @@ class GenericCallAdapter(Adapter):
                         )
                     to_insert = []
 
-                insert_pos += 1
+                # new arguments are inserted behind this argument
+                insert_pos = node_pos + 1
 
         if to_insert:
 
